@@ -705,7 +705,7 @@ struct Engine
             }
             MVec m = sm;
             m.arena = soccc_arena(sm.arena);
-            m.fresh_block = true;
+            m.fresh_block = sm.fresh_block;  // the copy gets a block as large as the source's, whatever that was sized for
             m.default_constructed = false;
             s[dst].m = m;
             adopt_observed_capacity(dst, sm);
@@ -972,7 +972,22 @@ struct Engine
             case OP_COPY_CONSTRUCT: { int d = pick_slot(vacant), sc = pick_slot(usable); if (d >= 0 && sc >= 0) op_copy_construct(d, sc); break; }
             case OP_MOVE_CONSTRUCT: { int d = pick_slot(vacant), sc = pick_slot(usable); if (d >= 0 && sc >= 0) op_move_construct(d, sc); break; }
             case OP_COPY_ASSIGN: { int d = pick_slot(exists), sc = pick_slot(usable); if (d >= 0 && sc >= 0 && !(d == sc && s[d].m.moved_from)) op_copy_assign(d, sc); break; }
-            case OP_MOVE_ASSIGN: { int d = pick_slot(exists), sc = pick_slot(usable); if (d >= 0 && sc >= 0 && !(d == sc && s[d].m.moved_from)) op_move_assign(d, sc); break; }
+            case OP_MOVE_ASSIGN:
+            {
+                int d = pick_slot(exists), sc = pick_slot(usable);
+                if (d < 0 || sc < 0 || (d == sc && s[d].m.moved_from)) break;
+                // known finding KF-move-assign-units multiplies the footprint by the alignment on every element-wise move
+                // assignment into a smaller target; keep chains of it from exhausting memory
+                const bool elementwise = !(K::ALWAYS_EQUAL || K::POCMA || s[sc].m.arena == s[d].m.arena);
+                if (avoid.count("move_assign_inflation") && elementwise && footprint_before[sc] > footprint_before[d] && footprint_before[sc] > 16384)
+                {
+                    ++avoided;
+                    counters().add("avoided:move_assign_inflation");
+                    break;
+                }
+                op_move_assign(d, sc);
+                break;
+            }
             case OP_SWAP: { int x = pick_slot(exists), y = pick_slot(exists); if (x >= 0 && y >= 0 && swap_allowed(x, y)) op_swap(x, y); break; }
             case OP_DESTROY: { int i = pick_slot(exists); if (i >= 0) op_destroy(i); break; }
             case OP_MUTATE: { int i = pick_slot(nonempty); if (i >= 0) op_mutate(i); break; }
